@@ -10,6 +10,7 @@ import WellenModel.Model.Load
 import WellenModel.Model.Detect
 import WellenModel.Model.Py
 import WellenModel.Model.Serde
+import WellenModel.Model.VcdHeaderDump
 /-
 `wmdriver`: reads one request per line on stdin, answers `<model reply>\t<spec reply>` per line.
 Imports only the import-free `Model` modules (the same definitions the theorems are about).
@@ -516,6 +517,7 @@ def handle (line : String) : String × String :=
   | ["serdeh", hex] => handleSerde "serdeh" hex
   | ["serdes", hex] => handleSerde "serdes" hex
   | ["serdert", _] => ("same", "same")
+  | ["vcdhdr", opts, decls, hex] => Wellen.VcdHeader.handle opts decls hex
   | ["pyq", tt, dump] => handlePyq tt dump
   | ["detect", hex] => handleDetect hex
   | ["loadseq", n, _, ops] => handleLoadSeq n ops
